@@ -306,6 +306,7 @@ func C15(tier string) int {
 	if thorough {
 		checks = append(checks, "C18")
 	}
+	vocabs = append(vocabs, NameClashVocab())
 	var mu sync.Mutex
 	extInfo := M{}
 	sem := make(chan struct{}, 4)
@@ -317,7 +318,11 @@ func C15(tier string) int {
 			defer wg.Done()
 			sem <- struct{}{}
 			defer func() { <-sem }()
-			info, viols := runExtension(scratch, astool, inst, vi, v, checks)
+			cs := checks
+			if v.Label == "name-clash" {
+				cs = []string{"C13"}
+			}
+			info, viols := runExtension(scratch, astool, inst, vi, v, cs)
 			mu.Lock()
 			defer mu.Unlock()
 			extInfo[v.Label] = info
@@ -435,6 +440,15 @@ func runExtension(scratch, astool, instrumented string, idx int, v ExtVocab, che
 			first := "?"
 			if len(keys) > 0 {
 				first = keys[0]
+			}
+			if v.Label == "name-clash" {
+				// judged by the exact set of wrong predicate cells
+				sort.Strings(keys)
+				h := sha256.Sum256([]byte(strings.Join(keys, "\n")))
+				viols = append(viols, report.Violation{Key: fmt.Sprintf("extension|name-clash|%s-fails|%d-cells|%s", c, len(keys), hex.EncodeToString(h[:5])),
+					What:   fmt.Sprintf("extension vocabulary %s: the %s driver reports exactly these %d wrong predicate cells: %v", v.Label, c, len(keys), keys),
+					Replay: rep})
+				continue
 			}
 			viols = append(viols, report.Violation{Key: fmt.Sprintf("extension|%s-fails|%s", c, classOfKey(first)),
 				What:   fmt.Sprintf("extension vocabulary %s: the %s driver reports %d violation(s) on the generated code, e.g. %v", v.Label, c, len(keys), short(keys, 5)),
